@@ -12,6 +12,7 @@ import Frrs.Pipeline
 import Frrs.Extracted
 import Frrs.Filter
 import Frrs.Proofs.Cli
+import Frrs.Proofs.Pipes
 namespace Frrs.C11
 open Frrs Frrs.Pipe
 set_option linter.unusedSimpArgs false
@@ -62,5 +63,20 @@ theorem dry_run_is_sticky (badRegex args : List Bytes) (s o : Cli.CliOpts)
 /-- the clean-up that a full run gets by default is never added to a dry run -/
 theorem dry_run_gets_no_default_cleanup (s : Cli.CliOpts) (h : s.dryRun = true) : Cli.defaultCleanup s = s := by
   unfold Cli.defaultCleanup; simp [h]
+
+
+/-- **a command line that starts with `--dry-run` is a dry run**, whatever follows -/
+theorem dry_run_first_is_a_dry_run (badRegex argv : List Bytes) (o : Cli.CliOpts)
+    (h : Cli.parseArgs badRegex (b!"--dry-run" :: argv) = .ok o) : o.dryRun = true :=
+  Cli.dry_run_first badRegex argv o h
+
+example : ((Cli.okOf (Cli.parseArgs [] [b!"--dry-run", b!"--path", b!"src", b!"--cleanup"])).map fun o => (o.dryRun, o.cleanup))
+    = some (true, Cli.Cleanup.standard) := by decide +kernel
+
+
+/-- **the exporter is started with the same command line in a dry run and in a real run**: `build_fast_export_cmd`
+    does not read `dry_run` (nor the clean-up mode, `--force`, or any selector) -/
+theorem preview_starts_the_same_exporter (c : Pipes.Caps) (o : Cli.CliOpts) (b : Bool) :
+    Pipes.exportCmd c { o with dryRun := b } = Pipes.exportCmd c o := Pipes.export_ignores_dry_run c o b
 
 end Frrs.C11
